@@ -207,10 +207,17 @@ func (c *client) record(to, kind string, pm proto.Message) *Msg {
 	return m
 }
 
+// SetBlock installs (or removes) the Block policy while nodes are running.
+func (b *Bus) SetBlock(f func(m *Msg) bool) {
+	b.mu.Lock()
+	b.Policy.Block = f
+	b.mu.Unlock()
+}
+
 func (c *client) pre(m *Msg) (*dkg.Process, error) {
 	b := c.b
-	pol := b.Policy
 	b.mu.Lock()
+	pol := b.Policy
 	target := b.nodes[m.To]
 	var proc *dkg.Process
 	if target != nil {
